@@ -73,6 +73,17 @@ def schedules(fam):
         out.append(S(fam, "two", [opn("c1"), opn("c2", "1.2.0"), sub("c1", "b"), Q, sub("c2", "b"), conn("c2"),
                                   ev("b", "add", a=1, val=R("d")), cache("b"), ev("b", "custom"), Q,
                                   ev("b", "remove", a=0), ev("b", "custom"), Q]))
+    if fam == "stream":
+        st = dict(settle=True)
+        # an add / change event hands over a new resource whose own reference is still loading, while the service
+        # emits events on the new resource: they must follow the event that hands it over
+        res = {"b": {"k": "c", "c": [P('"q"')]}, "a": Mo(x=P("1")), "d": Mo(w=P("0"), r=R("e")), "e": Mo(v=P("1"))}
+        out.append(SC(fam, "addnested", res,
+                      [opn("c1"), sub("c1", "b"), Q, ev("b", "add", a=1, val=R("d"), **st), dict(reply("get", "d"), **st),
+                       ev("d", "custom", **st), ev("d", "change", k="w", val=P("5"), **st), dict(reply("get", "e"), **st), Q, ev("d", "custom"), Q]))
+        out.append(SC(fam, "changenested", res,
+                      [opn("c1"), sub("c1", "a"), Q, ev("a", "change", k="x", val=R("d"), **st), dict(reply("get", "d"), **st),
+                       ev("d", "custom", **st), ev("d", "change", k="w", val=P("5"), **st), dict(reply("get", "e"), **st), Q, ev("d", "custom"), Q]))
     if fam == "gc":
         # issue #241: releasing the last retained path while another parent is loading
         out.append(S(fam, "i241", [opn("c1"), sub("c1", "b"), Q, sub("c1", "a"), conn("c1"), cache("a"), reply("access", "a"),
